@@ -32,6 +32,9 @@ CONSTANTS
     RevertGuard,        \* TRUE: RevertTransaction reserves the target id while it runs
     MetaLogsCarryIk,    \* TRUE: metadata logs carry the idempotency key of their request
     CancelAbortsWait,   \* TRUE: a cancelled request stops waiting for the persistence of its log and reports an error
+    ReplayFromRequest,  \* TRUE: a request answered through its idempotency key builds its answer and its event from its own
+                        \* kind and arguments (as coded: the public method does not compare the stored entry with the request);
+                        \* FALSE: from the stored entry
     MaxCancel,          \* number of request contexts cancelled per behaviour
     MaxCrash            \* number of crash/restart cycles explored
 
@@ -338,21 +341,38 @@ S_RunReturn(p) ==
 \* the log the caller is answered with: its own, or the one found under its idempotency key
 Answer(p) == IF loc[p].hit # NoLog THEN loc[p].hit ELSE loc[p].log
 
+\* the kind of entry a request produces
+KindOfReq(p) == CASE req[p].kind = "create" -> "tx" [] req[p].kind = "revert" -> "rev"
+                  [] req[p].kind = "setmeta" -> "set" [] OTHER -> "del"
+\* answered from an entry found under the idempotency key, by a method that trusts it to be its own
+OwnAnswer(p) == loc[p].hit # NoLog /\ ReplayFromRequest
+\* CreateTransaction / RevertTransaction assert the payload type of the entry they are handed
+ReplayPanics(p) == OwnAnswer(p) /\ req[p].kind \in {"create", "revert"} /\ Answer(p).kind # KindOfReq(p)
+
 EventOf(p) ==
     LET l == Answer(p)
-        swapped == l.kind = "rev" /\ RevertEventSwapped
-    IN  [type |-> CASE l.kind = "tx" -> "committed" [] l.kind = "rev" -> "reverted"
-                    [] l.kind = "set" -> "saved" [] l.kind = "del" -> "deleted",
+        k == IF OwnAnswer(p) THEN KindOfReq(p) ELSE l.kind
+        swapped == k = "rev" /\ RevertEventSwapped
+        tgt == IF OwnAnswer(p) /\ k # "tx" THEN req[p].target ELSE l.target
+        txi == IF k \in {"tx", "rev"} THEN l.txid ELSE -1
+    IN  [type |-> CASE k = "tx" -> "committed" [] k = "rev" -> "reverted"
+                    [] k = "set" -> "saved" [] k = "del" -> "deleted",
          by |-> p, ik |-> req[p].ik,
-         txid |-> IF swapped THEN l.target ELSE l.txid,
-         target |-> IF swapped THEN l.txid ELSE l.target,
-         tacct |-> l.tacct, postings |-> l.postings, mval |-> l.mval]
+         txid |-> IF swapped THEN tgt ELSE txi,
+         target |-> IF swapped THEN txi ELSE tgt,
+         tacct |-> IF OwnAnswer(p) /\ k \in {"set", "del"} THEN req[p].tacct ELSE l.tacct,
+         postings |-> l.postings,
+         mval |-> IF OwnAnswer(p) /\ k = "set" THEN req[p].mval ELSE IF OwnAnswer(p) /\ k = "del" THEN "" ELSE l.mval]
 
 \* the public method publishes and returns
 S_Publish(p) ==
-    /\ events' = IF req[p].dry /\ ~DryRunPublishes THEN events ELSE Append(events, EventOf(p))
-    /\ Return(p, MkResp(p, "ok", Answer(p).id, Answer(p).txid, ""))
-    /\ UNCHANGED <<store, lastLog, lastTx, pending, inflight, doneSet>>
+    IF ReplayPanics(p)
+    THEN /\ Return(p, MkResp(p, "panic", -1, -1, ""))
+         /\ UNCHANGED <<store, lastLog, lastTx, pending, inflight, doneSet, events>>
+    ELSE /\ events' = IF req[p].dry /\ ~DryRunPublishes THEN events ELSE Append(events, EventOf(p))
+         /\ Return(p, MkResp(p, "ok", Answer(p).id,
+                             IF OwnAnswer(p) /\ KindOfReq(p) \in {"set", "del"} THEN -1 ELSE Answer(p).txid, ""))
+         /\ UNCHANGED <<store, lastLog, lastTx, pending, inflight, doneSet>>
 
 \* RevertTransaction(): in-flight guard, then read the target
 S_RevTake(p) ==
